@@ -24,7 +24,7 @@ func init() {
 				"term.Type() == safeWriterType, and executeList prints/renders a value only under !safeWriter; (C01.last) a SafeWriter command must be last: every later command is evaluated only " +
 				"under !safeWriter of the previous one, the other branch being no-return; (C01.swap) the output destination lives in exactly one place, escapeeWriter.Writer — no other field is " +
 				"assigned an io.Writer, wrappers holding one are transient locals — Runtime.escapeeWriter is assigned only in the pool constructor and escapeeWriter.set only in Execute from t.set; " +
-				"(C01.default) NewSet installs text/template.HTMLEscape, WithSafeWriter is the only other writer of Set.escapee, and safeHtml/safeJs/raw/unsafe are bound to HTMLEscape/JSEscape/unsafePrinter.",
+				"(C01.default) NewSet installs text/template.HTMLEscape, WithSafeWriter is the only other writer of Set.escapee, and safeHtml/safeJs/raw/unsafe are bound to HTMLEscape/JSEscape/unsafePrinter. (C01.sink, continued) the JSON renderer writes raw by design; the HTML escaping of its encoder is never switched off.",
 			NotDecided:  "that template.HTMLEscape escapes the five characters and fastprinter forwards every chunk to the writer it was given (trusted); Renderer values (writeJson, hiddenBool) write raw by documented design (reported as notes, not violations).",
 			Assumptions: []string{"text/template.HTMLEscape/JSEscape and fastprinter behave as documented"},
 			Trusted:     commonTrusted,
@@ -249,6 +249,41 @@ func runC01(c *an.Ctx) {
 	}
 	c.Expect("C01.sink", "value prints", nVal, 3)
 	c.Expect("C01.sink", "literal text writes", nText, 1)
+	// the JSON renderer writes to the raw writer by design; what keeps data-derived <, > and & out of the output
+	// there is the encoder's own HTML escaping, which is on by default: it is never switched off
+	for _, f := range p.Units() {
+		if f.Pkg != p.Jet || f.Body == nil {
+			continue
+		}
+		info := f.Info()
+		n := 0
+		an.InspectOwn(f, func(m ast.Node) bool {
+			call, ok := m.(*ast.CallExpr)
+			if !ok {
+				return true
+			}
+			switch an.CalleeName(info, call) {
+			case "(*encoding/json.Encoder).SetEscapeHTML", "(*json.Encoder).SetEscapeHTML":
+				on := false
+				if len(call.Args) == 1 {
+					if tv, ok := info.Types[call.Args[0]]; ok && tv.Value != nil && tv.Value.ExactString() == "true" {
+						on = true
+					}
+				}
+				if !on {
+					n++
+					key := f.Name + "/json-html-escaping"
+					if n > 1 {
+						key += "#" + itoa(n)
+					}
+					c.Bad("C01.sink", key, call.Pos(), nil, "%s switches off the HTML escaping of a JSON encoder: writeJson writes to the raw writer, so data-derived <, > and & would reach the output unescaped", f.Name)
+				}
+			case "json.NewEncoder", "encoding/json.NewEncoder":
+				c.OK("C01.sink", f.Name+"/json-html-escaping", call.Pos(), "a JSON encoder (HTML escaping on by default)")
+			}
+			return true
+		})
+	}
 	// in the functions that produce output, TextNode.Text is used only as the data of a raw write
 	// (String() methods that format nodes for error messages have no output sink and are not concerned)
 	producers := map[*an.Fn]bool{}
